@@ -274,3 +274,26 @@ Theorem C05_spec_depends_on_values_only :
     spec_emod tri delta L S v ev = spec_emod tri delta L S v ev'.
 Proof. exact spec_emod_compat. Qed.
 Print Assumptions C05_spec_depends_on_values_only.
+
+(* The documented pixelation offset (offset + three exponential decays in
+   the abscissa measured in pixels) satisfies the hypothesis of the
+   rescaling theorem; all that is assumed of exp is that it is a function of
+   the number.  Hence the rescaling invariance for the real formula: *)
+Theorem C05_pixelation_offset_rescale :
+  forall (expo : Q -> Q) (lam : Q),
+    (forall a b, a == b -> expo a == expo b) ->
+    ~ lam == 0 -> delta_rescale (pxdelta expo) lam.
+Proof. exact pxdelta_rescale. Qed.
+Print Assumptions C05_pixelation_offset_rescale.
+
+Theorem C05_geometric_rescale_invariant_documented_offset :
+  forall (tri : list pt -> list triangle) (expo : Q -> Q)
+         (L : lut) (S : setup) (v lam : Q) (evs : list event),
+    (forall a b, a == b -> expo a == expo b) ->
+    lut_ok L -> setup_ok S -> 0 < lam ->
+    Forall2 oqeq
+            (route_scalar tri (pxdelta expo) L (rescale_setup S lam) v
+                          (map (rescale_event (l_feat L) lam) evs))
+            (route_scalar tri (pxdelta expo) L S v evs).
+Proof. exact geometric_rescale_invariant_pxdelta. Qed.
+Print Assumptions C05_geometric_rescale_invariant_documented_offset.
